@@ -104,6 +104,9 @@ def gen_adt(F, adt, depth=0, variant=None):
     v = vs[0]
     if variant is not None:
         v = [x for x in vs if x["name"] == variant][0]
+    elif depth > 0 and MODE.get("nested", {}).get(adt["id"]):
+        # the rule iterates over the variants of enums nested in a payload (check_pair)
+        v = [x for x in vs if x["name"] == MODE["nested"][adt["id"]]][0]
     if depth > 5:
         return Opaque("deep:" + adt["id"])
     if adt["id"].endswith("stack::outputs::StackOutputs"):
